@@ -202,7 +202,11 @@ Fixpoint cm_item (fuel : nat) (i : item) : GM (option string * call) :=
       match j with
       | Group r =>
           nc <- cm_rhs f r ;;
-          gret (Some "forced", CForced (snd nc) ("'''(" ++ rhs_str true r ++ ")'''"))
+          (* a call with a trailing comma is an item that always succeeds: nothing to force *)
+          match snd nc with
+          | CComma c => gret (Some "forced", CComma c)
+          | c => gret (Some "forced", CForced c ("'''(" ++ rhs_str true r ++ ")'''"))
+          end
       | NameLeaf v | StringLeaf v =>
           nc <- cm_item f j ;;
           gret (Some "forced", CForced (snd nc) (py_repr v))
